@@ -653,8 +653,8 @@ pub fn run(e: &Engine) {
     let configs: [(Backend, u64, u64); 4] = [
         (Backend::Local2, 60, 1500),
         (Backend::ObjectStore, 60, 1500),
-        (Backend::GitLocal, 2, 40),
-        (Backend::GitRemote, 2, 60),
+        (Backend::GitLocal, 2, 12),
+        (Backend::GitRemote, 2, 10),
     ];
     for (b, quick, thorough) in configs {
         let n = e.tier.pick(quick, thorough);
